@@ -150,7 +150,7 @@ inline void set_repetition(Repetition& r, int rep, int coord) {
 // lattices of references (columns 2, rows 3; pitches a, b along the rotated axes when aligned)
 inline void set_ref_repetition(Repetition& r, int rep, int coord, double rotation) {
     r = Repetition{};
-    const double a = coord == HALF ? 20 / 32.0 : 0.020, b = coord == HALF ? 30 / 32.0 : 0.030;
+    const double a = coord == HALF ? 20 / 32.0 : 0.020, b = coord == HALF ? 1.0 : 0.030;
     switch (rep) {
         case 1:
             r.type = RepetitionType::Rectangular; r.columns = 2; r.rows = 3; r.spacing = Vec2{a, b};
